@@ -308,10 +308,7 @@ theorem step_ext (pick : Pick) (s : State) (a : Act) : Ext pick s (step pick s a
   | ack ok => exact ack_ext pick s ok
   | shutdown => exact Ext.fields pick rfl rfl rfl rfl
   | env op =>
-    show Ext pick s (if opPeer op == s.peer then s else (s.allocStep pick op).1)
-    split
-    · exact Ext.refl pick s
-    · exact allocStep_ext pick s op
+    exact allocStep_ext pick s op
 
 theorem runActs_ext (pick : Pick) (s : State) (acts : List Act) : Ext pick s (runActs pick s acts) := by
   unfold runActs
